@@ -123,3 +123,50 @@ func HarnessC03PT() {
 	}
 	zz.Observe("deleted", len(deleted), len(after))
 }
+
+// HarnessC03GCRetry: garbage collection stays exact across a failure. Two
+// composed resources of this XR exist; the pipeline no longer desires the
+// second. The first reconcile may be cut short by an API failure at any call
+// (the collector's own writes included); the retry succeeds. After it, the
+// resource that left the desired state is gone, the one still desired was
+// never deleted, and the references name exactly what is left.
+//
+//gosym:harness
+//gosym:cover fault-hit collected
+func HarnessC03GCRetry() {
+	s := kube.New()
+	zzSetupComposedN(s, 2, 0, "", false)
+	runner := &zzRunner{steps: []zzStep{{desired: []bool{true, false}}}}
+	c := NewFunctionComposer(s, s, runner)
+	req := CompositionRequest{Revision: zzRevision(1)}
+	var gone, kept string
+	for _, cd := range zzStoredComposed(s) {
+		if cd.resName == zzResNames[1] {
+			gone = cd.name
+		} else {
+			kept = cd.name
+		}
+	}
+	s.FaultAt = zz.Choose("fault.at", zz.Bound(12, 14)) - 1
+	s.FaultKind = 1 + zz.Choose("fault.kind", 3)
+	_, _ = c.Compose(context.Background(), zzReadXR(s), req)
+	if s.Faulted {
+		zz.Cover("fault-hit")
+	}
+	s.FaultAt = -1
+	_, err := c.Compose(context.Background(), zzReadXR(s), req)
+	zz.Assert("retry-succeeds", err == nil)
+	if err != nil {
+		return
+	}
+	zz.Cover("collected")
+	zz.Assert("resource-that-left-the-desired-state-is-deleted", !s.Exists(zzCDGroup, zzCDKind, "", gone))
+	zz.Assert("still-desired-resource-exists", s.Exists(zzCDGroup, zzCDKind, "", kept))
+	for _, w := range s.Log {
+		if w.Verb == kube.VerbDelete && w.Kind == zzCDKind && w.Name == kept {
+			zz.Assert("still-desired-resource-never-deleted", false)
+		}
+	}
+	refs := zzStoredRefNames(s)
+	zz.Assert("references-name-exactly-what-is-left", len(refs) == 1 && refs[0] == kept)
+}
